@@ -361,6 +361,59 @@ theorem passIter_keeps {P : Nat → NodeState → Prop} (c : SCfg)
     unfold Net.pass
     exact Keeps.foldl _ (fun net i => net.passNode c i) hpassNode n hn
 
+
+/-- the executable test for convergence: `closureCount` (what the driver prints for every closure of
+every generated run, and the Go side counts independently on the real nodes) -/
+theorem closureCount_pos (c : SCfg) : ∀ (fuel : Nat) (net : Net) (j : Nat),
+    closureCount c fuel net = some j → 0 < j := by
+  intro fuel
+  induction fuel with
+  | zero => intro net j h; simp [closureCount] at h
+  | succ f ih =>
+    intro net j h
+    unfold closureCount at h
+    dsimp only at h
+    split at h
+    · cases h; omega
+    · cases hc : closureCount c f (net.pass c) with
+      | none => rw [hc] at h; simp at h
+      | some i => rw [hc] at h; simp at h; omega
+
+theorem closureLoop_of_count (c : SCfg) : ∀ (fuel : Nat) (net : Net) (k : Nat),
+    closureCount c fuel net = some (k + 1) →
+    closureLoop c fuel net = (passIter c k net).pass c ∧
+      ((passIter c k net).pass c).sig = (passIter c k net).sig := by
+  intro fuel
+  induction fuel with
+  | zero => intro net k h; simp [closureCount] at h
+  | succ f ih =>
+    intro net k h
+    unfold closureCount at h
+    unfold closureLoop
+    dsimp only at h ⊢
+    by_cases hs : (net.pass c).sig = net.sig
+    · simp only [hs, if_true, Option.some.injEq] at h ⊢
+      have : k = 0 := by omega
+      subst this
+      exact ⟨rfl, hs⟩
+    · simp only [hs, if_false] at h ⊢
+      cases hc : closureCount c f (net.pass c) with
+      | none => rw [hc] at h; simp at h
+      | some j =>
+        rw [hc] at h
+        simp only [Option.map_some, Option.some.injEq] at h
+        cases j with
+        | zero => exact absurd (closureCount_pos c f _ 0 hc) (by omega)
+        | succ j =>
+          have hk : k = j + 1 := by omega
+          subst hk
+          exact ih (net.pass c) j hc
+
+theorem closureConverged_of_count (c : SCfg) (net : Net) (k : Nat)
+    (h : closureCount c closureFuel net = some (k + 1)) : net.closureConverged c := by
+  obtain ⟨h1, h2⟩ := closureLoop_of_count c closureFuel net k h
+  exact ⟨k, by unfold Net.closure; rw [h1], h2⟩
+
 /-- **closure records every logged vote** at every node that can take it: if the closure loop ended
 at a fixpoint, then at every node that is live, tracks the vote's round and holds no conflicting vote
 of that validator, every logged vote of another validator is recorded. -/
